@@ -590,6 +590,12 @@ pub fn drive_c08(a: &Args) {
         inner.extend(braced.iter());
         out.emit(print_event(&inner));
     }
+    // code points that are special in OTHER encodings (UTF-16 surrogates, the replacement character, the byte
+    // order mark) are ordinary SMT-LIB characters: every short sequence of them prints and reads back as itself
+    let specials = [0xD800u32, 0xD83D, 0xDBFF, 0xDC00, 0xDE00, 0xDFFF, 0xFFFD, 0xFEFF, 0x61];
+    for s in all_strings(&specials, a.sz(2, 3)) {
+        out.emit(print_event(&s));
+    }
     // spelled escapes over representatives of every class of hex digit (0-9, a-f, A-F) and their non-hex
     // neighbours, in each position: four-digit form complete, braced form up to three digits complete
     let hexish = [48u32, 57, 97, 102, 65, 70, 103, 71];
